@@ -85,7 +85,14 @@ class MBTilesCache(TileCacheBase):
 
     def _initialize_mbtile(self):
         log.info('initializing MBTile file %s', self.mbtile_file)
-        with sqlite3.connect(self.mbtile_file) as db:
+        # Build the file under a temporary name and rename it into place when it is complete:
+        # other processes decide with os.path.exists(mbtile_file) whether the file is usable and
+        # must never see it without its tables. We hold the init lock, so the name is ours.
+        tmp_file = self.mbtile_file + '.init'
+        if os.path.exists(tmp_file):
+            os.unlink(tmp_file)
+        db = sqlite3.connect(tmp_file)
+        try:
             if self.wal:
                 db.execute('PRAGMA journal_mode=wal')
 
@@ -114,11 +121,14 @@ class MBTilesCache(TileCacheBase):
                     (zoom_level, tile_column, tile_row);
             """)
             db.commit()
+        finally:
+            db.close()
 
         if self.file_permissions:
             permission = int(self.file_permissions, base=8)
             log.info("setting file permissions on MBTile file: ", permission)
-            os.chmod(self.mbtile_file, permission)
+            os.chmod(tmp_file, permission)
+        os.rename(tmp_file, self.mbtile_file)
 
     def update_metadata(self, name='', description='', version=1, overlay=True, format='png'):
         self.db.execute("""
